@@ -55,6 +55,21 @@ COMPOSES = {
     "e2e_syms_to_hits": ["C04 + C02_concrete_scan_c08"],
 }
 
+
+COMPOSES_STAT = {
+    "stat_bridge_tails": ["C11_tail_is_word_sum (tail_exact_cons)", "tfm wsum / Ptail", "C01 score_def on words"],
+    "stat_chain_cells": ["C09_weight_cell", "C09_freq_cell", "abstract log2 (Hlog0, Hlogpos)"],
+    "stat_motif_pipeline": ["stat_chain_cells", "C09_background_new_accepts_iff_exact (its right-hand side as hypothesis)",
+                            "C11_build_total", "C11_pvalue_brackets_exact", "C12_pvalue_final_bounds", "stat_bridge_tails"],
+    "stat_motif_pipeline_score": ["C13_approximate_score_bounds", "stat_bridge_tails"],
+    "stat_threshold_scan_meme_partial": ["C11_methods_total", "C11_score_pvalue_roundtrip", "C11_pvalue_brackets_exact",
+                                         "E2E.e2e_text_to_hits (shape of the hit list)"],
+    "stat_threshold_scan_tfm_partial": ["C13_approximate_score_bounds", "E2E.e2e_text_to_hits (shape of the hit list)"],
+    "stat_revcomp": ["C10_revcomp_is_reversal_and_complement", "dist tail_step_comm (tail_exact_cons)"],
+    "stat_revcomp_pvalues": ["stat_revcomp", "C11_pvalue_brackets_exact"],
+    "stat_io_roundtrip": ["C14 reader_roundtrip_jaspar16", "alphabets_wf"],
+}
+
 TRUSTED_BASE = [
     "Coq 8.16.1 kernel (coqc, full .vo builds); vm_compute only in the Example lemmas of E2E.v",
     "the models of the composed groups are tied to /repo by THEIR checks (C01, C02, C03, C04, C05, C07, C08, C10); "
@@ -229,7 +244,7 @@ def main(tier="quick", seed=1, replay=None):
                 notes.append("coqchk of %s not completed: %r" % (module, e))
     wall = time.time() - t0
     ev = dict(group=GROUP, modules=[m for _f, m in PROPS.values()], level="proof", tier=tier, obligations=total, discharged=discharged,
-              theorems=theorems(), composes=COMPOSES, axioms=axioms, failures=failures, notes=notes,
+              theorems=theorems(), composes=dict(COMPOSES, **COMPOSES_STAT), axioms=axioms, failures=failures, notes=notes,
               trusted_base=TRUSTED_BASE, assumptions=ASSUMPTIONS, wall_s=round(wall, 1),
               checker_cmd="make -C coq/e2e (and the groups it imports; coq_makefile, coqc 8.16.1 full .vo build) "
                           "+ coqc Print Assumptions audit of LME2E.E2E and LME2E.E2EStat")
